@@ -18,15 +18,24 @@ H_ASSUME = [
     'engine H: what actix does with the returned response/error object afterwards (serialisation, default headers, routing, extractors) is outside the claim',
 ]
 
+I_ASSUME = [
+    'engine I: std::collections::HashMap is the ENVIRONMENT of the in-memory backend: a map is a bounded list of entries with pairwise distinct symbolic keys; get/get_mut/contains_key/insert/remove/entry have their documented semantics',
+    'engine I: pre-states satisfy the representation invariant of core/src/inmemory.rs (children index <-> version records, snapshot data <-> snapshot metadata, versions belong to existing clients, latest is one of the client\'s versions); the invariant is re-established by every method inside its precondition (checked)',
+    'engine I: payloads and timestamps are opaque tokens the code may move and clone but not inspect; versions_since < u32::MAX; std::sync::Mutex is not modelled (single transaction)',
+    'engine I: when the current source cannot be encoded, or a violated obligation does not reproduce as a public-API history on the real backend, the in-memory leg is reported as not decided (NOTE line, evidence engine_i.not_decided) and the verdict rests on the other engines',
+]
+
 FUNCS_SERVER = ['core/src/server.rs: Server::add_version', 'Server::get_child_version', 'Server::add_snapshot', 'Server::get_snapshot', 'Server::txn (compiled MIR via Kani)']
 
 PROPS = {
     'C01': dict(
+        I=['c01.imem'],
         K=dict(quick=['c01_step_n7_k0', 'c01_step_n7_k1', 'c01_step_n7_k2', 'c01_step_n7_k3', 'c01_walk_n4', 'c01_hist_k2'], thorough=['c01_step_n8_k0', 'c01_step_n8_k1', 'c01_step_n8_k2', 'c01_step_n8_k3', 'c01_walk_n6', 'c01_hist_k3']),
         S=dict(quick=[], thorough=['s_reads_byparent', 's_writes_addversion', 's_reopen']),
         bounds='induction step from every REACH-shaped state with chain <= 7 (thorough 8), 2 clients, any request with any 128-bit ids; walk at chain <= 4 (6); histories of 2 (3) requests from the empty store',
     ),
     'C02': dict(
+        I=['c02.imem'],
         K=dict(quick=['c02_cas_n7'], thorough=['c02_cas_n8']),
         S=dict(quick=[], thorough=['s_writes_addversion']),
         bounds='every REACH-shaped state with chain <= 7 (8), 2 clients (known/unknown), arbitrary 128-bit parent and client id, payload <= 2 bytes',
@@ -44,17 +53,19 @@ PROPS = {
     ),
     'C05': dict(
         H=['c05'],
-        K=dict(quick=['c05_fault_n3_k0', 'c05_fault_n3_k1', 'c05_fault_n3_k2', 'c05_fault_n3_k3', 'c05_begin_n3'], thorough=['c05_fault_n5_k0', 'c05_fault_n5_k1', 'c05_fault_n5_k2', 'c05_fault_n5_k3', 'c05_begin_n3']),
+        K=dict(quick=['c05_fault_n3_k0', 'c05_fault_n3_k1', 'c05_fault_n3_k2', 'c05_fault_n3_k3', 'c05_begin_n3'], thorough=['c05_fault_n5_k0', 'c05_fault_n5_k1', 'c05_fault_n5_k2', 'c05_fault_n5_k3', 'c05_begin_n3', 'c05_fault2_n3_k0', 'c05_fault2_n3_k2']),
         S=dict(quick=[], thorough=['s_faults']),
         bounds='one failing storage call (thorough: two) at any of the first 12 calls, failing before or (commit) after taking effect; any operation; chain <= 4 (7)',
     ),
     'C06': dict(
+        I=['c06.imem'],
         H=['c06'],
         K=dict(quick=['c06_roundtrip_n3'], thorough=['c06_roundtrip_n3']),
         S=dict(quick=[], thorough=['s_blob']),
         bounds='payload and snapshot of symbolic length 0..2 and symbolic bytes through the compiled Server and the SQLite glue; longer payloads (page boundaries up to 100 MiB) are outside the claim',
     ),
     'C07': dict(
+        I=['c07.imem'],
         K=dict(quick=['c07_frame_n7_k0', 'c07_frame_n7_k2', 'c07_frame_n4_rd'], thorough=['c07_frame_n8_k0', 'c07_frame_n8_k2', 'c07_frame_n4_rd']),
         S=dict(quick=[], thorough=['s_writes_addversion', 's_reopen']),
         bounds='every REACH-shaped state with chain <= 7 (8), any later request of either client, every earlier version re-read',
@@ -64,6 +75,7 @@ PROPS = {
         bounds='every REACH-shaped state with chain <= 7 (8), arbitrary 128-bit p, known and unknown clients; AddVersion half = the real add_version on the same state',
     ),
     'C09': dict(
+        I=['c09.imem'],
         K=dict(quick=['c09_nonint_n3'], thorough=['c09_nonint_n4']),
         S=dict(quick=['s_reads_byid', 's_reads_byparent'], thorough=['s_reads_client', 's_reads_snapdata', 's_reads_byparent', 's_reads_byid', 's_writes_newclient', 's_writes_snapshot', 's_writes_addversion']),
         bounds='two clients, one arbitrary request each, chain <= 4 (7); ids quoted by one client may be any id of the other',
@@ -73,17 +85,20 @@ PROPS = {
         bounds='every REACH-shaped chain <= 7 (8) (window of 5 exercised on both sides), existing snapshot at any position or none, arbitrary 128-bit v',
     ),
     'C11': dict(
+        I=['c11.imem'],
         K=dict(quick=['c11_none_n7', 'c11_prev_n7', 'c11_interleaved_n2'], thorough=['c11_none_n8', 'c11_prev_n8', 'c11_interleaved_n4']),
         S=dict(quick=['s_reads_snapdata', 's_reads_byid', 's_writes_snapshot'], thorough=['s_reads_snapdata', 's_reads_byid', 's_writes_snapshot', 's_reads_client']),
         bounds='as C10, followed by the real get_snapshot and get_child_version; one interfering AddVersion/AddSnapshot at transaction granularity, chain <= 4',
     ),
     'C12': dict(
+        I=['c02.imem', 'c11.imem set_snapshot: metadata'],
         M=True,
         K=dict(quick=['c12_wiring_n2'], thorough=['c12_wiring_n2']),
         S=dict(quick=[], thorough=['s_writes_addversion', 's_writes_snapshot']),
         bounds='threshold kernels: ALL 2^64 x 2^64 (days) and 2^32 x 2^32 (versions) inputs, dev and release overflow settings (loop-free, full bit-width); wiring: symbolic config and counter, ages from an 8-entry table, chain <= 2',
     ),
     'C13': dict(
+        I=['c'],
         S=dict(quick=['s_reads_client', 's_reads_snapdata', 's_reads_byparent', 's_reads_byid', 's_writes_newclient', 's_writes_snapshot', 's_writes_addversion', 's_reopen'], thorough=['s_reads_client', 's_reads_snapdata', 's_reads_byparent', 's_reads_byid', 's_writes_newclient', 's_writes_snapshot', 's_writes_addversion', 's_reopen']),
         bounds='SQLite glue vs storage contract, per StorageTxn method, rows <= 3; reopen between any two steps',
     ),
@@ -100,6 +115,7 @@ PROPS = {
         bounds='as C14; allow-list membership is an uninterpreted predicate (any list, any id)',
     ),
     'C18': dict(
+        I=['c18.imem'],
         K=dict(quick=['c18_frame_n7_k0', 'c18_frame_n7_k1', 'c18_frame_n7_k2', 'c18_frame_n7_k3'], thorough=['c18_frame_n8_k0', 'c18_frame_n8_k1', 'c18_frame_n8_k2', 'c18_frame_n8_k3']),
         S=dict(quick=[], thorough=['s_reads_client', 's_reads_snapdata', 's_reads_byparent', 's_reads_byid']),
         bounds='every REACH-shaped state with chain <= 7 (8), every request; all non-mutating outcomes',
